@@ -1,0 +1,20 @@
+//go:build verif
+// +build verif
+
+package bal_gslb
+
+import (
+	"github.com/bfenetworks/bfe/bfe_balance/backend"
+)
+
+// VerifC07Backends returns, in sub-cluster list order, the sub-cluster names and their backends
+// (hook for the out-of-tree verification harness of C07/C08, build tag verif; add-only).
+func (bal *BalanceGslb) VerifC07Backends() (names []string, backends [][]*backend.BfeBackend) {
+	bal.lock.Lock()
+	defer bal.lock.Unlock()
+	for _, sub := range bal.subClusters {
+		names = append(names, sub.Name)
+		backends = append(backends, sub.backends.VerifC07Backends())
+	}
+	return names, backends
+}
